@@ -41,7 +41,24 @@ func Main(tier, replay string) {
 		_, v := core.LoadReplay(replay)
 		replayID, _ = v.Case.(map[string]any)["id"].(string)
 	}
-	for _, f := range []fam.Family{sig, typ, lay, sec, gen} {
+	// routes of one shape whose template variables are named differently (GET /t/{id}, PUT /t/{key}), in one controller
+	// and in two: whatever is written must pair every template name with its own path parameter
+	var vn []scen.Case
+	for i, split := range []bool{false, true} {
+		id := fmt.Sprintf("r%04d", i)
+		a := scen.Method{Name: "Get" + id, Verb: "GET", Route: scen.S("/t/{id}"), Params: []scen.Param{{Name: "id", Type: "string", In: "Path"}}, Ret: "string"}
+		b := scen.Method{Name: "Put" + id, Verb: "PUT", Route: scen.S("/t/{key}"), Params: []scen.Param{{Name: "key", Type: "string", In: "Path"}}, Ret: "string"}
+		c1 := scen.Controller{Name: "A" + id, Pkg: id, Prefix: scen.S("/" + id), Tag: scen.S("T" + id), Methods: []scen.Method{a, b}}
+		u := scen.Unit{Controllers: []scen.Controller{c1}}
+		if split {
+			c1.Methods = []scen.Method{a}
+			c2 := scen.Controller{Name: "B" + id, Pkg: id, Prefix: scen.S("/" + id), Tag: scen.S("U" + id), Methods: []scen.Method{b}}
+			u = scen.Unit{Controllers: []scen.Controller{c1, c2}}
+		}
+		vn = append(vn, scen.Case{ID: id, Unit: u, Features: map[string]string{"family": "variable-names", "two-controllers": fmt.Sprint(split)}, Desc: u.Controllers})
+	}
+	varNames := fam.Family{Name: "variable-names", Cases: vn, BaseCfg: fam.DefaultCfg, PackSize: 1}
+	for _, f := range []fam.Family{sig, typ, lay, sec, gen, varNames} {
 		byID := map[string]scen.Case{}
 		var packed, singles []scen.Case
 		for _, c := range f.Cases {
@@ -58,7 +75,7 @@ func Main(tier, replay string) {
 				}
 				continue // known hard rejections: no document is produced
 			}
-			if f.Name == "generics" {
+			if f.Name == "generics" || f.Name == "variable-names" {
 				singles = append(singles, c) // many of these are rejected with a hard error: run alone
 				continue
 			}
